@@ -42,6 +42,18 @@ CHECKS.update({
     "C16": _coll("Panic-point enumerator: for every callback-calling operation, every callback index (predicate, key fn, Clone, Drop, iterator step) as the panic point, with and without follow-up use; after unwinding CollTrace requires: no id dropped twice (now or later), no dropped/moved-out id reachable in any container, no duplicate ids, caller-held values not dropped; leaks allowed.", "6/C16"),
     "C17": _coll("Box programs (new_in, drop, into_inner, leak, into_raw/from_raw round trip, from_iter_in, Vec->boxed slice, Debug forwarding) on bumpalo and std Box twins validated against Coll!Sem; BoxDropReleasesNoMemory checks that no global-allocator free and no accounting change happens at Box drop.", "6/C17"),
 })
+CHECKS["C19"] = dict(category="model_checking", design_ref="6/C19",
+    text=("(A) SizesModel.tla transcribes the code's size arithmetic operation by operation (checked_add/checked_mul/unchecked ops as written: round_up_to, "
+          "Layout::array, RawVec::allocate_in, amortized_new_size, reserve_internal, the fast path's size rounding, the slice total of extend_from_slices_copy) "
+          "over an 8-bit word and TLC checks for ALL inputs that a request is granted only if representable and what is granted covers the request. "
+          "(B) sizes_driver issues ~1900 boundary requests at the real 64-bit boundaries (usize::MAX, usize::MAX/size +-1, isize::MAX +-1, isize::MAX rounded by "
+          "alignment) x element sizes {0,1,3,8,4096} x every size-taking entry point of Bump, Vec, String x MIN_ALIGN, in dbg and rel; Sizes.tla (with Big.tla "
+          "bignum digits) requires unrepresentable => err/panic, fallible => never panic, ok => claimed extent really held in arena memory, lengths never wrap."),
+    note=("Trusted: TLC; Big.tla; the hand transcription in SizesModel.tla. Huge-but-representable requests legitimately fail for lack of memory; "
+          "the oracle forbids only success with too little memory, wrong lengths, and panics from fallible methods."),
+    technique="TLA+ small-word arithmetic model (TLC exhaustive) + TLC trace validation of boundary requests with bignum arithmetic")
+ENGINES.append(dict(name="tlc-sizes", path="spec/SizesModel.tla spec/Sizes.tla spec/Big.tla", serves_properties=["C19"],
+    kind_free_text="TLA+ word-size arithmetic model; bignum trace oracle for 64-bit boundary requests"))
 CHECKS["C20"] = dict(category="model_checking", design_ref="6/C20",
     text=("(A) Threads.tla: threads x arenas with memory-access-level interleaving, vector-clock happens-before, invariants NoRace, Frame and "
           "SentinelNeverWritten checked exhaustively by TLC (2 threads, 2 arenas, 3 calls each, one hand-over). (B) multi_driver runs pairs of arena programs "
